@@ -2,6 +2,8 @@ import SC.Properties.C02
 import SC.Properties.C01
 import SC.Properties.C09
 import SC.Properties.C10
+import SC.Properties.C08
+import SC.Properties.C12
 /-!
 # C15 — ill-formed UTF-8: every bad byte is one U+FFFD, in every function alike
 
@@ -42,6 +44,10 @@ theorem search_any_bytes (cfg : A.Cfg) (s t : Bytes) (r : Int) :
   ⟨C01.index_refines cfg s t, C01.contains_refines cfg s t, C10.indexRune_refines cfg s r, C09.hasPrefix_refines cfg s t,
    C09.hasSuffix_refines cfg s t, C09.trimPrefix_refines cfg s t, C09.trimSuffix_refines cfg s t,
    C09.cutPrefix_refines cfg s t, C09.cutSuffix_refines cfg s t⟩
+
+theorem search_any_bytes2 (cfg : A.Cfg) (s t : Bytes) :
+    A.LastIndex cfg s t = S.lastIndex s t ∧ A.Count cfg s t = (S.count s t : Nat) ∧ A.Cut cfg s t = some (S.cut s t) :=
+  ⟨C08.lastIndex_refines cfg s t, C12.count_refines cfg s t, C12.cut_refines cfg s t⟩
 
 /-- the examples of the property statement, on the specification and on the algorithm model -/
 example : S.index [0x61, 0xFF] [0xEF, 0xBF, 0xBD] = 1 ∧ A.Index {} [0x61, 0xFF] [0xEF, 0xBF, 0xBD] = 1 ∧
